@@ -49,7 +49,7 @@ func rw(v reflect.Value) reflect.Value {
 
 func takeSnapshot(roots map[string]any) *snapshot {
 	s := &snapshot{leaves: map[string]string{}, owner: map[string]string{}, guarded: map[string]bool{}, onces: map[string]bool{}}
-	seen := map[uintptr]bool{}
+	seen := map[uintptr]string{} // pointer -> path of its first visit (a stable identity between snapshots; maps are walked in sorted key order)
 	var walk func(path, owner string, v reflect.Value, depth int)
 	walk = func(path, owner string, v reflect.Value, depth int) {
 		if depth > 60 || !v.IsValid() {
@@ -70,12 +70,12 @@ func takeSnapshot(roots map[string]any) *snapshot {
 				return
 			}
 			p := v.Pointer()
-			if seen[p] {
-				s.leaves[path] = "->seen"
+			if first, ok := seen[p]; ok {
+				s.leaves[path] = "->@" + first
 				s.owner[path] = owner
 				return
 			}
-			seen[p] = true
+			seen[p] = path
 			walk(path, owner, v.Elem(), depth+1)
 		case reflect.Interface:
 			if v.IsNil() {
@@ -131,6 +131,11 @@ func takeSnapshot(roots map[string]any) *snapshot {
 			}
 			s.leaves[path+".#len"] = fmt.Sprint(v.Len())
 			s.owner[path+".#len"] = owner
+			type kv struct {
+				ks string
+				v  reflect.Value
+			}
+			var entries []kv
 			it := v.MapRange()
 			for it.Next() {
 				k := it.Key()
@@ -140,7 +145,12 @@ func takeSnapshot(roots map[string]any) *snapshot {
 						ks = str
 					}
 				}
-				e := it.Value()
+				entries = append(entries, kv{ks, it.Value()})
+			}
+			sort.Slice(entries, func(i, j int) bool { return entries[i].ks < entries[j].ks })
+			for _, en := range entries {
+				ks := en.ks
+				e := en.v
 				if e.Kind() == reflect.Struct || e.Kind() == reflect.Array {
 					cp := reflect.New(e.Type()).Elem()
 					cp.Set(e)
